@@ -472,7 +472,16 @@ class Impl(object):
     def add(self, spec, style="attr"):
         name, kind, attr = spec[0], spec[1], spec[2]
         facets = [dec(t) for t in spec[3:]]
-        self.cat[name] = self.mk(kind, attr, style, facets)
+        ix = self.mk(kind, attr, style, facets)
+        self.nadd = getattr(self, "nadd", 0) + 1
+        if self.nadd % 2 == 0:
+            # every second index has lived in another catalog under another name before (a moved / renamed
+            # index): stored under `name` it must report `name` (seeded change C12_B kept the first name)
+            from hypatia.catalog import Catalog
+            other = Catalog()
+            other["old_" + name] = ix
+            del other["old_" + name]
+        self.cat[name] = ix
         self.twins[name] = self.mk(kind, attr, style, facets)
         self.kinds[name] = kind
         if name not in self.order:
